@@ -263,7 +263,7 @@ fn body(which: Which, slots: usize) -> impl Fn(&Ch) -> Run + Sync + Send {
       run.violate("build-did-not-finish", "deadlock", json!({}));
       return run;
     };
-    let case = |extra: Value| json!({"package": g.pkg.files.iter().map(|(p, s)| json!([p, s])).collect::<Vec<_>>(), "exports": g.pkg.exports, "declarations": g.decl_names, "references": g.ref_names, "detail": extra});
+    let case = |extra: Value| json!({"package": g.pkg.files.iter().map(|(p, s)| json!([p, s])).collect::<Vec<_>>(), "exports": g.pkg.exports, "workspace_member": g.pkg.workspace, "declarations": g.decl_names, "references": g.ref_names, "detail": extra});
     if !r.graph_errors.is_empty() {
       run.violate("generated-package-does-not-build", format!("{:?}", r.graph_errors), case(json!({})));
       return run;
@@ -273,7 +273,7 @@ fn body(which: Which, slots: usize) -> impl Fn(&Ch) -> Run + Sync + Send {
     check_result(which, &r, &entrypoints, &g.unused_markers, &mut run, &case);
     let with_output = r.modules.values().filter(|(_, s)| matches!(s, FcSlot::Module { .. })).count();
     let with_diag = r.modules.values().filter(|(_, s)| matches!(s, FcSlot::Diagnostics(_))).count();
-    run.state_key = hash_of(&format!("{:?}{:?}", g.pkg.files, g.pkg.exports));
+    run.state_key = hash_of(&format!("{:?}{:?}{}", g.pkg.files, g.pkg.exports, g.pkg.workspace));
     run.nontrivial = with_output > 0 && g.decl_names.len() >= 2;
     run.outcome_key = hash_of(&format!("{:?}", r.modules.values().map(|(_, s)| match s { FcSlot::Module { text, .. } => hash_of(text), FcSlot::Diagnostics(d) => hash_of(d), FcSlot::None => 0 }).collect::<Vec<_>>()));
     run.count("packages_with_output", (with_output > 0) as u64);
@@ -309,7 +309,7 @@ fn body_corpus(which: Which) -> impl Fn(&Ch) -> Run + Sync + Send {
           } else if let Some((ver, path)) = parts[2].split_once('/') {
             pkgs
               .entry((pkg.clone(), ver.to_string()))
-              .or_insert_with(|| FcPackage { name: pkg.clone(), version: ver.to_string(), files: vec![], exports: vec![] })
+              .or_insert_with(|| FcPackage { name: pkg.clone(), version: ver.to_string(), files: vec![], exports: vec![], workspace: false })
               .files
               .push((format!("/{path}"), src.clone()));
           }
@@ -383,6 +383,7 @@ pub fn prop(which: Which, tier: Tier) -> Prop {
     assumptions: vec![
       "emitted text is re-parsed with the same swc parser the subject uses (common-mode risk); the source-map decoder and the export / signature extractors are the harness's own".into(),
       "deviation-bounded from the package with a single annotated declaration".into(),
+      "@s/a is published to the registry or (one deviation) a local workspace member analysed with WorkspaceFastCheckOption::Enabled; fast_check_dts is off".into(),
       "packages whose public API cannot be made explicit get diagnostics instead of output and are then only counted".into(),
     ],
     parts: vec![
